@@ -506,6 +506,16 @@ def css_stream(ctx, ok):
                                    'config': cfg.to_json(), 'cached': repr(r[:3])[:300], 'fresh': repr(fresh[:3])[:300]})
     corr['impl_cache_selfcheck'] = {'cases': n_sc, 'differences': bad_sc}
 
+    # ---- callbacks that rewrite the text they are given (implementation only: positions oracle)
+    for abbr, cfg in cases[:600 if quick else 6000]:
+        r = cu.impl_run(abbr, cu.cfg_user_config(cfg), True, cache_for(cfg), rewrite=True)
+        ctx.count_eval()
+        ctx.cover('C13:css-rewriting-callbacks-' + r[0])
+        if r[0] == 'ok':
+            bad = fu.positions_check(r[1], cu.oracle_events(r[2]), r[4]['output.newline'])
+            if bad:
+                css_stream_failure(ctx, 'expand-rewriting', abbr, cfg, None, bad, True)
+
     # ---- synthetic resolved properties straight into stringify
     syn = []
     for rec in load_corpus():
@@ -578,6 +588,12 @@ def css_stream(ctx, ok):
 
 def replay_css(ctx, rp):
     cfg = su.Cfg.from_json(rp['cfg'])
+    if rp.get('kind') == 'expand-rewriting':
+        r = cu.impl_run(rp['abbr'], cu.cfg_user_config(cfg), True, None, rewrite=True)
+        bad = fu.positions_check(r[1], cu.oracle_events(r[2]), r[4]['output.newline']) if r[0] == 'ok' else None
+        print('C13 stylesheet (rewriting callbacks) %r under %s\n  -> %r\n  %s' % (
+            rp['abbr'], cfg.to_json(), r[:3], ('property fails: ' + bad) if bad else 'property holds'))
+        return 1 if bad else 0
     if rp.get('abbr') is not None:
         r = cu.impl_run(rp['abbr'], cu.cfg_user_config(cfg), rp.get('tabstop', cfg.tabstop))
     else:
